@@ -9,6 +9,8 @@ import TxVerif.Model.EngineDriver
 import TxVerif.Model.Lock
 import TxVerif.Props.C18
 import TxVerif.Model.CodecDriver
+import TxVerif.Model.Crash
+import TxVerif.Model.PQDriver
 open TxVerif
 
 def choiceStr : Choice → String
@@ -47,7 +49,7 @@ partial def loop (h : IO.FS.Stream) (st : St) : IO St := do
   | [lhs, expected] =>
     match lhs.splitOn " " with
     | cmd :: args =>
-      match (evalPure cmd args <|> evalCodec cmd args) with
+      match (evalPure cmd args <|> evalCodec cmd args <|> evalPQ cmd args) with
       | some r =>
         if r == expected then loop h { st with checked := st.checked + 1 }
         else do
@@ -126,6 +128,56 @@ partial def pathLoop (h : IO.FS.Stream) (st : PathSt) (line checked mism : Nat) 
     | none => pathLoop h st (line + 1) checked (mism + 1)
   | _ => pathLoop h st (line + 1) checked mism
 
+def parseReach (s : String) : List (Nat × Nat) :=
+  if s == "-" then [] else
+  (s.splitOn ",").filterMap fun part =>
+    match part.splitOn ":" with
+    | [a, b] => match a.toNat?, b.toNat? with | some x, some y => some (x, y) | _, _ => none
+    | _ => none
+
+/-- check one program of the crash protocol: the operation log of the implementation must be
+    accepted by the commit discipline `Cfg.step` (Model/Crash.lean) -/
+def crashProgram (lines : List String) : Nat × Option String :=
+  let states : List (Nat × List (Nat × Nat)) := lines.filterMap fun l =>
+    match l.splitOn " " with
+    | ["state", n, r] => n.toNat?.map fun n => (n, parseReach r)
+    | _ => none
+  let reachOf : Nat → List (Nat × Nat) := fun st => ((states.find? (·.1 == st)).map (·.2)).getD []
+  let initPages : List (Nat × Nat) := (lines.filterMap fun l =>
+    match l.splitOn " " with | ["init", r] => some (parseReach r) | _ => none).flatten
+  let c0 : Cfg := {
+    durable := { pages := fun p => (initPages.find? (·.1 == p)).map (·.2),
+                 slots := fun k => if k = 0 then some (1, 0) else if k = 1 then some (0, 0) else none },
+    pending := [], aSlot := 0, aTx := 1, aSt := 0, inflight := none }
+  let ops : List (String × TOp) := lines.filterMap fun l =>
+    match l.splitOn " " with
+    | ["w", p, h] => match p.toNat?, h.toNat? with | some p, some h => some (l, TOp.write p h) | _, _ => none
+    | ["h", s, t, st] => match s.toNat?, t.toNat?, st.toNat? with | some s, some t, some st => some (l, TOp.hdr s t st) | _, _, _ => none
+    | ["s"] => some (l, TOp.sync)
+    | ["t", n] => n.toNat?.map fun n => (l, TOp.trunc n)
+    | _ => none
+  let rec go (c : Cfg) (n : Nat) : List (String × TOp) → Nat × Option String
+    | [] => (n, none)
+    | (l, op) :: rest =>
+      match c.step reachOf op with
+      | some c' => go c' (n + 1) rest
+      | none => (n, some s!"operation #{n} `{l}` violates the commit discipline (committed state {c.aSt}, txid {c.aTx}, slot {c.aSlot}, in flight {c.inflight}, {c.pending.length} pending)")
+  go c0 0 ops
+
+partial def crashLoop (h : IO.FS.Stream) (acc : List String) (prog : String) (checked mism progs : Nat) : IO (Nat × Nat × Nat) := do
+  let line ← h.getLine
+  if line.isEmpty then return (checked, mism, progs)
+  let l := line.trimAscii.toString
+  if l.startsWith "program " then crashLoop h [] l checked mism progs
+  else if l == "end" then
+    let (n, err) := crashProgram acc.reverse
+    match err with
+    | none => crashLoop h [] "" (checked + n) mism (progs + 1)
+    | some e => do
+      IO.println s!"MISMATCH {prog}: {e}"
+      crashLoop h [] "" (checked + n) (mism + 1) (progs + 1)
+  else crashLoop h (l :: acc) prog checked mism progs
+
 /-- engine mode: programs are delimited by `program …` / `end` lines -/
 partial def engLoop (h : IO.FS.Stream) (st : EngSt) (prog : String) (checked mism progs : Nat) : IO (Nat × Nat × Nat) := do
   let line ← h.getLine
@@ -150,6 +202,10 @@ def main (args : List String) : IO UInt32 := do
     let st ← loop stdin {}
     IO.println s!"DONE checked={st.checked} mismatches={st.mismatches} bad={st.bad}"
     return (if st.mismatches == 0 && st.bad == 0 then 0 else 1)
+  | "crash" =>
+    let (checked, mism, progs) ← crashLoop stdin [] "" 0 0 0
+    IO.println s!"DONE checked={checked} mismatches={mism} bad=0 programs={progs}"
+    return (if mism == 0 then 0 else 1)
   | "path" =>
     let (checked, mism) ← pathLoop stdin {} 0 0 0
     IO.println s!"DONE checked={checked} mismatches={mism} bad=0"
